@@ -807,6 +807,55 @@ def _canon_index(interp, base, idx):
     return V("tuple", T("tuple", *[x.term for x in out]), items=out, labels=idx.labels)
 
 
+_ELEMENTWISE = {"add": "add", "sub": "sub", "mul": "mul", "div": "div", "pow": "pow"}
+
+
+def _push_row_index(interp, base, idx, st, node, depth=0):
+    """base: a 2-D value whose term is an elementwise binary operation; returns base[idx] computed from the operands"""
+    if depth > 6:
+        return None
+    t = base.term
+    if len(t.args) != 2:
+        return None
+    ops = []
+    for a_ in t.args:
+        if not isinstance(a_, Term):
+            return None
+        if a_.op == "const":
+            ops.append(V("float", a_, shape=(), has_const=True, const_=a_.args[0]))
+            continue
+        v_ = interp.vtab.get(a_)
+        sh_ = shape_of(v_) if v_ is not None else None
+        if v_ is None or sh_ is None:
+            return None
+        if len(sh_) <= 1:
+            if len(sh_) == 1 and not (sh_[0] == base.shape[1] or (sh_[0].is_const() and sh_[0].c == 1)):
+                return None
+            ops.append(v_)  # broadcast along the rows
+        elif len(sh_) == 2:
+            if sh_[0].is_const() and sh_[0].c == 1 and not (base.shape[0].is_const() and base.shape[0].c == 1):
+                ops.append(v_)  # a single row broadcast along the rows
+            elif sh_[0] == base.shape[0]:
+                if sh_[1].is_const() and sh_[1].c == 1 and isinstance(v_.term, Term) and v_.term.op in ("reshape1", "reshape") and isinstance(v_.term.args[0], Term):
+                    src_ = interp.vtab.get(v_.term.args[0])
+                    ssh_ = shape_of(src_) if src_ is not None else None
+                    if src_ is not None and ssh_ is not None and len(ssh_) == 1:
+                        ops.append(subscript(interp, src_, idx, st, node))  # the k-th entry of the column
+                        continue
+                if isinstance(v_.term, Term) and v_.term.op in _ELEMENTWISE:
+                    r_ = _push_row_index(interp, v_, idx, st, node, depth + 1)
+                    if r_ is None:
+                        return None
+                    ops.append(r_)
+                else:
+                    ops.append(subscript(interp, v_, idx, st, node))
+            else:
+                return None
+        else:
+            return None
+    return binop(interp, _ELEMENTWISE[t.op], ops[0], ops[1], st, node)
+
+
 def subscript(interp, base, idx, st, node):
     if base.kind == "maybe":
         base = base.items[0] if base.items else V("unk", base.term, labels=base.labels, orig=base.orig)
@@ -883,6 +932,12 @@ def subscript(interp, base, idx, st, node):
         if len(its_) == len(base.shape) and all(d.is_const() and d.c == 1 for d in base.shape) and all(i_.has_const and isinstance(i_.const, int) and not isinstance(i_.const, bool) and i_.const in (0, -1) for i_ in its_):
             # the single entry of a 1 x 1 (x 1 ...) array
             return V("arr", T("reshape1", base.term), shape=(), orig=frozenset([FRESH]), labels=labels, loc=fresh_id(), extra=base.extra if isinstance(base.extra, str) else None)
+        if idx.kind == "int" and len(base.shape) == 2 and isinstance(base.term, Term) and base.term.op in _ELEMENTWISE and hasattr(interp, "vtab"):
+            # row k of an elementwise expression over broadcast operands: index the operands that have that row axis,
+            # keep those that are broadcast along it (f(s, a.reshape(-1, 1))[k] = f(s, a[k]))
+            pushed = _push_row_index(interp, base, idx, st, node)
+            if pushed is not None:
+                return pushed
         if idx.kind == "slice1" and len(base.shape) >= 2 and idx.items and idx.items[0].kind == "int" and not idx.items[0].has_const:
             # a[i:i+1] for a symbolic position i: the element a[i] with a unit leading axis
             el = subscript(interp, base, idx.items[0], st, node)
